@@ -46,16 +46,15 @@ pub fn judge(ctx: &mut Ctx, c: Case) {
         return;
     }
     if let Some(mis) = compare(&exp, &obs) {
-        let (cell, sub) = if !c.cell.is_empty() {
-            (c.cell.clone(), None)
+        // the signature names the smallest failing sub-expression and *its* kind of mismatch
+        let (cell, sub, mis_class) = if !c.cell.is_empty() {
+            (c.cell.clone(), None, mis.clone())
         } else {
             match localize(c.expr, c.facts) {
-                Some((sub, _)) => (node_cell(sub, c.facts), Some(show_expr(sub))),
-                None => (format!("{}(composition)", kind(c.expr)), None),
+                Some((sub, m)) => (node_cell(sub, c.facts), Some(show_expr(sub)), m),
+                None => (format!("{}(composition)", kind(c.expr)), None, mis.clone()),
             }
         };
-        // strip the concrete error name from "wrong-error:X" etc. only for panics (site varies)
-        let mis_class = if mis == "panic" { "panic".to_string() } else { mis.clone() };
         let mut cj = case_json(c.expr, c.facts, &obs, &exp);
         if let Some(s) = sub {
             cj["smallest_failing_subtree"] = json!(s);
@@ -167,8 +166,8 @@ fn run(ctx: &mut Ctx) {
     workload::chains(ctx, &mut j);
     // quick: a 1/16 systematic sample of the depth-2 product; thorough: all of unary/binary mixes
     // and 1/8 of binary-in-binary (17*17*34^3*2 = 22.7 M would be the full product)
-    depth2(ctx, ctx.tier.of(16, 1));
-    let n = ctx.tier.of(80_000, 1_500_000);
+    depth2(ctx, ctx.tier.of(4, 1));
+    let n = ctx.tier.of(400_000, 4_000_000);
     workload::random(ctx, &pool, n, ctx.tier.of(5, 6), &mut j);
 }
 
@@ -180,7 +179,7 @@ fn finish(m: &Merged, tier: Tier) -> Finish {
         exhaustive: false,
         exhaustive_part: format!(
             "depth-1 product over the whole pool and the boundary chains are complete; depth-2 compositions over the 34-value reduced pool are {}",
-            tier.of("a 1/16 (unary/binary mixes) and 1/128 (binary in binary) systematic sample", "complete for unary/binary mixes and a 1/8 systematic sample for binary in binary")
+            tier.of("a 1/4 (unary/binary mixes) and 1/32 (binary in binary) systematic sample", "complete for unary/binary mixes and a 1/8 systematic sample for binary in binary")
         ),
         ..Default::default()
     };
